@@ -13,7 +13,7 @@ var Targets = []Target{
 	{Dir: eng + "streams", Type: "processorMetricsData", Pkg: "streams"},
 	{Dir: eng + "streams/flow", Type: "Flow", Pkg: "streamflow"},
 	{Dir: eng + "streams/lunar-context", Type: "lunarContext", Pkg: "lunarcontext", Init: []string{"SetFlowContext"}},
-	{Dir: eng + "streams/lunar-context", Type: "memoryState", Pkg: "lunarcontext", Init: []string{"WithClock"}},
+	{Dir: eng + "streams/lunar-context", Type: "memoryState", Pkg: "lunarcontext"},
 	{Dir: tk + "vacuum", Type: "MapVacuum", Pkg: "vacuum"},
 	{Dir: eng + "streams/resources/quota", Type: "quota", Pkg: "quotaresource", Init: []string{"init"}},
 	{Dir: eng + "streams/resources/quota", Type: "fixedWindow", Pkg: "quotaresource", Init: []string{"init"}},
